@@ -36,7 +36,7 @@ func init() {
 			"and MOVE points of features living only in the snapshot layer, only in the base, or both); distinct = kind + base + history; " +
 			"non-trivial = at least one edit after a snapshot touched a feature that existed when the snapshot was taken",
 		Assumptions: []string{"path geometry is observed through PointAt/Polyline, i.e. resolved through whatever world the snapshot's features resolve points in"},
-		Quick:       300, Thorough: 30000,
+		Quick:       300, Thorough: 12000,
 		Required: []string{"snapshots", "nested_snapshots", "edits_after_snapshot", "moved_point_after_snapshot", "edit_feature_in_snapshot_layer",
 			"edit_feature_only_in_base", "kind_mutable-overlay", "kind_tags-overlay", "snapshot_rechecks"},
 		Run: func(c *core.Ctx) {
